@@ -19,6 +19,7 @@ import (
 	"github.com/tuneinsight/lattigo/v6/schemes/bgv"
 	"github.com/tuneinsight/lattigo/v6/schemes/ckks"
 
+	"verif/harness/internal/c01"
 	"verif/harness/internal/tr"
 )
 
@@ -105,6 +106,41 @@ func emitDerived(name, scheme string, p rlwe.Parameters, maxSlots, logMaxSlots, 
 	w.Emit(derived{Ev: "derived", Prog: prog, Name: name, Scheme: scheme, LogN: p.LogN(), N: p.N(), CI: p.RingType() == ring.ConjugateInvariant,
 		NthRoot: p.NthRoot(), QCount: p.QCount(), MaxLevel: p.MaxLevel(), LogQFloor: int(math.Floor(p.LogQ())), QBitLen: bitlenProd(p.Q()),
 		LogQPFloor: int(math.Floor(p.LogQP())), QPBitLen: bitlenProd(p.Q(), p.P()), MaxSlots: maxSlots, LogMaxSlots: logMaxSlots, TN: tn})
+	emitMargins(name, p)
+}
+
+// margins: the lazy-accumulation margins derived from the chain, QiOverflowMargin(level) = floor(2^64 / max(Q[:level+1]))
+// and the same for P, as limbs together with the moduli they are derived from
+type margin struct {
+	Ev    string  `json:"ev"`
+	Prog  int     `json:"prog"`
+	Name  string  `json:"name"`
+	Ring  string  `json:"ring"`
+	Level int     `json:"level"`
+	M     []int   `json:"m"`
+	Mods  [][]int `json:"mods"`
+}
+
+func emitMargins(name string, p rlwe.Parameters) {
+	for _, lvl := range []int{0, p.MaxLevelQ() / 2, p.MaxLevelQ()} {
+		prog++
+		ms := [][]int{}
+		for _, q := range p.Q()[:lvl+1] {
+			ms = append(ms, c01.LimbsU(q))
+		}
+		w.Emit(margin{Ev: "margin", Prog: prog, Name: name, Ring: "Q", Level: lvl, M: c01.LimbsU(uint64(p.QiOverflowMargin(lvl))), Mods: ms})
+	}
+	for _, lvl := range []int{0, p.MaxLevelP()} {
+		if lvl < 0 || lvl > p.MaxLevelP() {
+			continue
+		}
+		prog++
+		ms := [][]int{}
+		for _, q := range p.P()[:lvl+1] {
+			ms = append(ms, c01.LimbsU(q))
+		}
+		w.Emit(margin{Ev: "margin", Prog: prog, Name: name, Ring: "P", Level: lvl, M: c01.LimbsU(uint64(p.PiOverflowMargin(lvl))), Mods: ms})
+	}
 }
 
 func fail(name string, err error, pan interface{}) {
